@@ -302,6 +302,14 @@ func (t *streamableHTTPClientTransport) send(
 
 	}
 
+	// Check status code first: only a 200 carries an answer, whatever content type an error page
+	// claims (an error status labelled text/event-stream used to be read as an empty event stream, and
+	// the status - which decides whether the request is retried - was lost).
+	if httpResp.StatusCode != http.StatusOK {
+		httpResp.Body.Close()
+		return nil, fmt.Errorf("%w: status code %d", ErrHTTPRequestFailed, httpResp.StatusCode)
+	}
+
 	// Check content type
 	contentType := httpResp.Header.Get(httputil.ContentTypeHeader)
 	if strings.Contains(contentType, httputil.ContentTypeSSE) {
@@ -311,11 +319,6 @@ func (t *streamableHTTPClientTransport) send(
 
 	// If not SSE, handle as JSON
 	defer httpResp.Body.Close()
-
-	// Check status code
-	if httpResp.StatusCode != http.StatusOK {
-		return nil, fmt.Errorf("%w: status code %d", ErrHTTPRequestFailed, httpResp.StatusCode)
-	}
 
 	// Read response body
 	respBytes, err := io.ReadAll(httpResp.Body)
